@@ -68,7 +68,17 @@ func (g *jgen) c10Response(sp *dialect.Spec, tag string, lines *[]string, pkg st
 		pl.headers = append(pl.headers, res)
 	}
 	sort.Slice(pl.headers, func(i, j int) bool { return pl.headers[i].Name < pl.headers[j].Name })
-	switch rng.Intn(6) {
+	switch rng.Intn(7) {
+	case 6:
+		// an object with arrays of arrays defined in place (and one as a component)
+		b := &JS{Kind: "obj", Members: []JM{
+			{Name: "grid", Req: true, S: &JS{Kind: "arr", Inner: &JS{Kind: "arr", Inner: &JS{Kind: "int", Bits: 64}}}},
+			{Name: "rows", Req: false, S: &JS{Kind: "arr", Inner: &JS{Kind: "arr", Inner: &JS{Kind: "str"}, Ref: "Row" + tag}}},
+		}}
+		if rng.Intn(2) == 0 {
+			b.Ref = "B" + tag
+		}
+		pl.kind, pl.body, pl.bname = "json", b, "Grid"+tag
 	case 0, 1:
 		b := g.object(2, false)
 		b.Ref = "B" + tag
